@@ -79,6 +79,16 @@ CHECKS["C20"] = ("exploration",
          "Determinism of (stdout, normalised stderr, status) is checked on explored inputs x environments: every run of the real binary is an event of a log that TLC must accept as a behaviour of Pure.tla. Environments: 15 dimensions (locale variables, TZ, MALLOC_PERTURB_, malloc tunables, ASLR, cwd, argv0, stdin vs path, -o vs stdout, extra env, stack limit, open fds, valgrind, binary incl. hash-substituted and stage-2 builds); quick = a model-checked pairwise-covering set + memcheck sample, thorough = 4 covering arrays and the full 138 240-element product on 3 inputs. Uninitialised-value reports are forbidden events. Hash independence is model-checked, replayed into map.c under arbitrary hash functions and enforced end to end; the id discipline is model-checked and bound by H10 traces.",
          "trusted: valgrind, sha256, glibc tunables, stderr normalisation (file name and argv[0] are inputs). Only C/C.UTF-8/POSIX locales exist here (setlocale/getenv use is caught by an import deny-list). Determinism beyond explored inputs/environments is not decided.",
          "DESIGN.md §5 C20")
+CHECKS["C05"] = ("model_checking",
+         "TLA+ declarative C11 typing (CTypes.tla: promotions, usual arithmetic conversions, literal/constant typing, operator result types, compatibility, composite, pointer assignment, _Generic selection) vs transcription of type.c/expr.c (TypeModel.tla) refined under TLC; every enumerated case replayed into cproc-qbe; H3 typing-event traces validated (Trace_Types.tla)",
+         "TLC checks exhaustively that the repaired implementation model equals the C11 rules over operators x {arithmetic types, enum flavours, bit-fields of widths 1,7,8,15,16,31,32,33,63,64}^2 x 3 targets (incl. literals by base/suffix/magnitude, character constants) and over all pairs of derived types of depth <= 2/3 (Compatible, Composite, pointer assignment). Every enumerated case and random nested expressions (depth <= 4) are compiled by the real cproc-qbe and the TYPE IDENTITY is observed as data (_Generic over all basic types and enum twins, sizeof, __builtin_types_compatible_p, accepted/refused declarations, redeclarations, pointer initialisation); H3 prom/ucv/bin/cond events of real compilations must be steps of the model.",
+         "trusted: TLC, ilparse, the probe renderer; the spec is audited on the same probes by gcc 12 (x86_64) and clang 14 (3 targets) before cproc is judged, with documented exception classes; implementation-defined choices follow the psABIs; struct/union types are opaque tags; known findings keyed by deviation.",
+         "DESIGN.md §5 C05")
+CHECKS["C12"] = ("model_checking",
+         "TLA+ refinement of an action-level transcription of pp.c (PPModel: ctx stack, hide flags, macrodepth, peekparen pending array, aliasing of token storage) against Prosser's declarative C11 6.10.3 expansion (Macro.tla), model-checked by TLC; programs replayed into cproc-qbe (-E token dump, and IL of P vs IL of the spec's expansion); H7 push/pop/args trace validation (Trace_PP.tla)",
+         "TLC checks on all small programs (<= 3 macros, bodies <= 2-4 tokens, sources <= 3-5 tokens, #define/#undef histories <= 3; 1.4 M states quick, 4.8 M thorough) that PPModel with deviations off yields an outcome the standard permits (DR 268 modelled as a set) and obeys the hide discipline (ctx depth, macrodepth returns to 0, every pushed macro un-hidden once). Every enumerated and simulated program (<= 12 macros, 0-4 parameters, variadic, #, nested and multi-line invocations, redefinitions) is run through the real cproc-qbe: -E token stream (H1), and without hook the IL of `int chkN = <invocation>;` against the IL of the rendered expansion; incompatible redefinition must exit 1. H7 traces of these executions and of the preprocess tests must be accepted.",
+         "trusted: TLC, rendering glue, cproc's own scanner for the H1 dump; Expand audited against gcc cpp on deterministic cases (disagreement = machinery error); programs with undefined behaviour (directive inside an invocation, unterminated invocation) generated but not judged; ##/#if/#include never generated; failing inputs attributed to a known defect only if the binary equals PPModel(KnownDevs).",
+         "DESIGN.md §5 C12")
 NOT_YET = {}
 
 def main():
